@@ -23,6 +23,7 @@ import (
 
 type vCtx struct {
 	timeout time.Duration
+	expiry  int64 // instant at which it expires, in ns since RunT was called (creation instant + timeout)
 	expired *bool
 }
 
@@ -37,6 +38,8 @@ func (c *vCtx) Err() error {
 }
 
 type vC17State struct {
+	clock     int64 // ns since RunT was called; advanced by the commands that run
+	takes     int64 // how long a foreground command takes
 	ctxs      []*vCtx
 	expired   bool
 	waitCtx   []context.Context
@@ -51,7 +54,7 @@ func vC17WithTimeout(parent context.Context, d time.Duration) (context.Context, 
 	if vC17 == nil {
 		return parent, func() {}
 	}
-	c := &vCtx{timeout: d, expired: &vC17.expired}
+	c := &vCtx{timeout: d, expiry: vC17.clock + int64(d), expired: &vC17.expired}
 	vC17.ctxs = append(vC17.ctxs, c)
 	return c, func() {}
 }
@@ -79,6 +82,7 @@ func vC17WaitOrStop(ctx context.Context, cmd *exec.Cmd, killDelay time.Duration)
 	}
 	vC17.waitCtx = append(vC17.waitCtx, ctx)
 	vC17.waitDelay = append(vC17.waitDelay, killDelay)
+	vC17.clock += vC17.takes // the command takes its time
 	return vC17.waitErr
 }
 
@@ -107,7 +111,16 @@ func VerifC17Deadline() {
 		line = "! exec ./prog\n"
 	}
 	fsys := vNewFS([]byte(line))
-	st := &vC17State{expired: expired}
+	// a second script runs after the first one (the recording T runs subtests one at a time), so
+	// its command starts later: the first command takes an arbitrary time
+	two := rt.Bool()
+	takes := rt.Int64()
+	rt.Assume(takes >= 0 && takes <= int64(1)<<50)
+	if two {
+		fsys.PutFile("/scripts/t.txt", []byte(line), 1)
+		rt.Reach("second-script-starts-later")
+	}
+	st := &vC17State{expired: expired, takes: takes}
 	if failed {
 		st.waitErr = errors.New("signal: killed")
 	}
@@ -115,6 +128,9 @@ func VerifC17Deadline() {
 	vfs.UntilOverride = func(time.Time) time.Duration { return time.Duration(remaining) }
 	_ = fsys
 	p := Params{Files: []string{vScriptFile}}
+	if two {
+		p.Files = append(p.Files, "/scripts/t.txt")
+	}
 	if dl {
 		p.Deadline = time.Unix(1700000100, 0)
 	}
@@ -122,16 +138,20 @@ func VerifC17Deadline() {
 	RunT(root, p)
 	vC17 = nil
 
-	rt.Assert(len(root.subs) == 1, "script-ran")
-	rt.Assert(st.started == 1 && len(st.waitCtx) == 1, "command-started-and-waited-for-once")
-	if len(st.waitCtx) != 1 || len(root.subs) != 1 {
+	nscr := 1
+	if two {
+		nscr = 2
+	}
+	rt.Assert(len(root.subs) == nscr, "script-ran")
+	rt.Assert(st.started == nscr && len(st.waitCtx) == nscr, "command-started-and-waited-for-once")
+	if len(st.waitCtx) != nscr || len(root.subs) != nscr {
 		return
 	}
 	g := int64(st.waitDelay[0])
 	if dl {
 		rt.Reach("deadline-set")
-		rt.Assert(len(st.ctxs) == 1, "one-context-with-timeout-per-run")
-		if len(st.ctxs) != 1 {
+		rt.Assert(len(st.ctxs) >= 1, "a-context-with-timeout-exists")
+		if len(st.ctxs) < 1 {
 			return
 		}
 		to := int64(st.ctxs[0].timeout)
@@ -143,8 +163,16 @@ func VerifC17Deadline() {
 		// the context given to commands expires two grace periods before the deadline ...
 		rt.Assert(to == remaining-2*g, "interrupt-two-grace-periods-before-deadline")
 		// ... it is that context the foreground command waits on, and the kill follows one grace period later
-		c, ok := st.waitCtx[0].(*vCtx)
-		rt.Assert(ok && c == st.ctxs[0], "command-waits-on-the-run-context")
+		// every command, whenever its script starts, waits on a context that expires at that same
+		// instant (Deadline - 2 grace periods), with the same kill delay
+		for i := range st.waitCtx {
+			c, ok := st.waitCtx[i].(*vCtx)
+			rt.Assert(ok, "command-waits-on-the-run-context")
+			if ok {
+				rt.Assert(c.expiry == remaining-2*g, "every-command-interrupted-two-grace-periods-before-deadline")
+			}
+			rt.Assert(int64(st.waitDelay[i]) == g, "same-kill-delay-for-every-command")
+		}
 		rt.Assert(to+g == remaining-g, "kill-one-grace-period-before-deadline")
 		if g > 100*vMs {
 			rt.Reach("grace-period-scaled")
